@@ -549,7 +549,7 @@ def _ak_worker(chunk):
 
 def run_akima(ctx, quick):
     """the family of Interp.tla (InitAk / ChooseAk): exact Akima value and derivatives for delta_x > 0"""
-    mod = 64 if quick else 4
+    mod = 128 if quick else 4
     cfg = c15.write_cfg(ctx, 'InterpAkima.cfg', dims=[1], npoly=1, all1d=False, nrep=1, nrep3=1, full2d=False,
                         interior=True, exset=[False], akima=(mod, ctx.seed % mod))
     # without -coverage: TLC's coverage mode re-evaluates the LET definitions of the dual-number arithmetic at every
@@ -557,7 +557,7 @@ def run_akima(ctx, quick):
     r = ctx.tlc_check('mech/Interp', cfg, workers=min(8, nproc()), timeout=2400, heap='8g', coverage=False)
     exps = r.exports('AK')
     n_init = 11         # 5 grids x delta_x in {1/2, 1} + the evenly spaced grid with delta_x = 2
-    if len(exps) < 500 or len(exps) != r.distinct - n_init:
+    if len(exps) < 300 or len(exps) != r.distinct - n_init:
         raise MachineryError('Akima family: %d scenarios exported, %d states' % (len(exps), r.distinct))
     groups = collections.OrderedDict()
     for e in sorted(exps, key=lambda e: json.dumps(e['s'], sort_keys=True)):
@@ -768,7 +768,8 @@ def run(ctx):
     hcfg = c15.write_cfg(ctx, 'InterpHistBase.cfg', dims=[1, 2, 3], npoly=1, all1d=False, nrep=3 if quick else 5,
                          nrep3=1, full2d=False, interior=True, exset=[False], histpos=True, bkind='mid')
     _, hexports = c15.run_tlc(ctx, hcfg)
-    hists = c15.run_hist_tlc(ctx, ['val', 'valD', 'grad'], True, 2)
+    # (the refutation of the two faulty cache disciplines is part of the thorough tier and of every replay)
+    hists = c15.run_hist_tlc(ctx, ['val', 'valD', 'grad'], True, 2, refute=not quick)
     if not quick:
         h3 = c15.run_hist_tlc(ctx, ['val', 'valD', 'grad'], True, 3, refute=False)
         random.Random(ctx.seed).shuffle(h3)
@@ -805,12 +806,12 @@ def run(ctx):
                 'w.r.t. table values: every method that offers it), 1/5 of the groups through MetaModelStructuredComp '
                 '(partials, training_data_gradients) and 1/3 of the 1-D groups through evaluate_spline and SplineComp; every '
                 'scenario is non-trivial (in-cell point, no node).  (2) query histories: every history of InterpHist.tla '
-                '(%d per scenario) x %d base scenarios (dimension 1-3, 2 positions per axis, second point B = a cell '
+                '(%d per scenario) x %d base scenarios (dimension 1-3, point in the first or in the last cell of every axis, second point B = a cell '
                 'midpoint elsewhere) on every applicable method.  (3) Akima with delta_x > 0: %d scenarios of the Akima '
                 'family (AkMod = %d, residue = seed), %d of them with a weight argument strictly inside the rounded section' %
                 ('1-D: all 336 grids; 2-D: all pairs of %d representative grids' % (5 if quick else 8) +
                  ('' if quick else ' with quarter points of every cell; 3-D: 3 grids, midpoints'),
-                 len(hists), len(hexports), n_ak, 64 if quick else 4, n_ak_rounded))
+                 len(hists), len(hexports), n_ak, 128 if quick else 4, n_ak_rounded))
     ctx.assumptions = [
         'C16 is partial (DESIGN.md section 7): the exact-derivative oracle exists only where the table is a polynomial of '
         'the class the method reproduces; for other tables (akima / cubic / bsplines / any method on a higher-degree '
